@@ -72,7 +72,7 @@ def wrap_args(w):
 
 
 def render_prog(prog, root: str, log: str) -> str:
-    L = ["import functools", "import os", "from pytask import task", f"_LOG = {log!r}", f"_ROOT = {root!r}", "",
+    L = ["import functools", "import os", "import pytask", "from pytask import task", f"_LOG = {log!r}", f"_ROOT = {root!r}", "",
          "def _log(t):", "    with open(_LOG, 'a') as f:", "        f.write(t + '\\n')", ""]
     if prog.get("imports"):
         L += ["import importlib.util as _ilu", "def _imp(stem):",
@@ -87,6 +87,10 @@ def render_prog(prog, root: str, log: str) -> str:
         st = stmts[i]
         if st["k"] == "value":
             L.append(f"{st['bind']} = 5")
+        elif st["k"] == "mark":
+            for m in st["marks"]:
+                call = "pytask.mark.skipif(False, reason='r')" if m == "skipif" else f"pytask.mark.{m}"
+                L.append(f"_o{st['obj']} = {call}(_o{st['obj']})")
         elif st["k"] == "gen":
             # a task generator: creates its inner @task functions when it runs
             L += ["@task(is_generator=True)", f"def {st['fname']}():", f"    _log('TAG:{st['tag']}')"]
@@ -271,7 +275,24 @@ def enc_kv(d):
     return ",".join(f"{enc(k)}:{enc_val(v)}" for k, v in (d or {}).items())
 
 
-def enc_stmt(st):
+def marks_after(stmts):
+    """{index of a mark statement: marks the function carries after it} and {obj: all its marks}."""
+    cur: dict = {}
+    at = {}
+    for i, st in enumerate(stmts):
+        if st["k"] == "mark":
+            cur.setdefault(st["obj"], set()).update(st["marks"])
+            at[i] = set(cur[st["obj"]])
+    return at, cur
+
+
+def is_mixed(marks) -> bool:
+    return "try_first" in marks and "try_last" in marks
+
+
+def enc_stmt(st, mixed=False):
+    if st["k"] == "mark":
+        return f"m|{st['obj']}|{1 if mixed else 0}"
     if st["k"] == "value":
         return f"v|{enc(st['bind'])}"
     if st["k"] == "wrap":
@@ -311,14 +332,16 @@ def model_lines(case, ob, perm=0, order=0):
     for rel, prog in case["files"].items():
         if prog is None:
             continue
+        at, _ = marks_after(prog["stmts"])
         lines.append(f"collect.prog path={rootp}/{rel} imports={','.join(prog.get('imports', []))} "
-                     f"stmts={';'.join(enc_stmt(s) for s in prog['stmts'])}")
+                     f"stmts={';'.join(enc_stmt(s, is_mixed(at.get(i, ()))) for i, s in enumerate(prog['stmts']))}")
     paths = ",".join(f"{rootp}/{p}" if p else rootp for p in (real_path(case, q) for q in case["paths"]))
     tf = case["task_files"] if case["task_files"] is not None else None
     lines.append(f"collect.run root={rootp} paths={paths} ignore={','.join(enc(p) for p in case['ignore'])} "
                  f"taskfiles={','.join(enc(p) for p in (tf if tf is not None else ['task_*.py']))} "
                  f"preloaded={','.join(ob.get('preloaded', []))} perm={perm}"
-                 + (" ptasks=" + ",".join(f"{ptask_file(case, pt, root, ob['base']).lstrip('/')}|{enc(pt['fname'])}|{pt['tag']}"
+                 + (" ptasks=" + ",".join(f"{ptask_file(case, pt, root, ob['base']).lstrip('/')}|{enc(pt['fname'])}|{pt['tag']}|"
+                                          f"{int(bool(pt.get('deco')))}{int(bool(pt.get('deco') or pt.get('marks')))}{int(is_mixed(pt.get('marks') or ()))}"
                                           for pt in case["ptasks"]) if case.get("ptasks") else ""))
     return lines
 
@@ -513,6 +536,8 @@ def failure_reasons(case, root, ob):
         if prog is None:
             continue
         reasons += [f"{rel}: {r}" for r in module_faults(prog)]
+        if any(is_mixed(ms) for ms in marks_after(prog["stmts"])[1].values()):
+            reasons.append(f"{rel}: a function carries try_first and try_last")
     for rel in collected:
         prog = case["files"][rel]
         for h in (prog or {}).get("imports", []):
@@ -530,6 +555,8 @@ def failure_reasons(case, root, ob):
                 keys[("proj:" + rel, name)] += 1
     if any(pt for pt in case.get("ptasks") or []) and any(c > 1 for k, c in keys.items()):
         reasons.append("a programmatic task shares file and name with another task")
+    if any(is_mixed(pt.get("marks") or ()) for pt in case.get("ptasks") or []):
+        reasons.append("a programmatic task carries try_first and try_last")
     return reasons
 
 
@@ -740,11 +767,29 @@ class Gen:
         d = self.mkdef("task_h", "task_h", style="def")
         return [d, self.wrap(d["obj"], None, r.choice([None, "a"]), bare=True)]
 
+    MARKS = ["try_first", "try_last", "persist", "skipif", "custom_marker"]
+
+    def with_marks(self, stmts):
+        """Attach pytask markers to one function of a unit: directly after its definition (below a later @task) or after
+        its @task wrapping (above it)."""
+        r = self.rng
+        defs = [i for i, st in enumerate(stmts) if st["k"] == "def"]
+        if not defs or r.random() > 0.22:
+            return stmts
+        i = r.choice(defs)
+        o = stmts[i]["obj"]
+        marks = [r.choice(self.MARKS)]
+        if r.random() < 0.15:
+            marks = ["try_first", "try_last"]
+        wraps = [j for j, st in enumerate(stmts) if st["k"] == "wrap" and st["obj"] == o]
+        pos = (wraps[-1] + 1) if wraps and r.random() < 0.5 else i + 1
+        return stmts[:pos] + [{"k": "mark", "obj": o, "marks": marks}] + stmts[pos:]
+
     def prog(self, rich=True, helpers=()):
         r = self.rng
         stmts = []
         for _ in range(r.choice([1, 1, 2, 2, 3, 4]) if rich else 1):
-            stmts += self.unit()
+            stmts += self.with_marks(self.unit())
         imports = []
         if helpers and r.random() < 0.5:
             imports = [r.choice(list(helpers))]
@@ -878,40 +923,79 @@ def random_case(rng, cid, focus=None):
 
 
 def prog_case(rng, cid):
-    """`build(paths=…, tasks=[…])`: plain functions of a module outside the project and / or of a task module that is also
-    collected through the paths, single or listed twice, optionally as TaskWithoutPath objects."""
+    """`build(paths=…, tasks=[…])`: functions of a module outside the project and / or of a task module that is also
+    collected through the paths — plain, carrying pytask markers only, wrapped by @task (markers above / below), single or
+    listed twice, optionally as TaskWithoutPath objects."""
     g = Gen(rng)
     names = ["task_a", "task_b", "work"]
-    ext = {"progmod.py": {"imports": [], "stmts": [g.mkdef(n, n, style="def") for n in names]}}
+    ext_stmts = []
+    info = {}
+    for n in names:
+        d = g.mkdef(n, n, style="def")
+        ext_stmts.append(d)
+        info[n] = {"tag": d["tag"], "marks": [], "deco": False}
     files = {"task_m.py": {"imports": [], "stmts": [g.mkdef(n, n, style="def") for n in ["task_a", "task_c"]]}}
     use_paths = rng.random() < 0.6
     ptasks = []
+    chosen = []
 
-    def add(src, prog, attr, kind="fn", name=None, share=None):
-        st = next(x for x in prog["stmts"] if x["k"] == "def" and x["fname"] == attr)
-        ptasks.append({"src": src, "attr": attr, "fname": attr, "tag": st["tag"], "kind": kind, "name": name, "share": share})
+    def add(src, attr, kind="fn", name=None, share=None):
+        if src.startswith("proj:"):
+            st = next(x for x in files["task_m.py"]["stmts"] if x["k"] == "def" and x["fname"] == attr)
+            ptasks.append({"src": src, "attr": attr, "fname": attr, "tag": st["tag"], "kind": kind, "name": name, "share": share, "marks": [], "deco": False})
+        else:
+            chosen.append(attr)
+            ptasks.append({"src": src, "attr": attr, "fname": attr, "tag": info[attr]["tag"], "kind": kind, "name": name, "share": share})
 
-    mode = rng.choice(["single", "single", "twice", "path+task", "twp", "twp-dup", "two-fns"])
+    mode = rng.choice(["single", "single", "single", "twice", "path+task", "twp", "twp-dup", "two-fns", "two-fns"])
     if mode == "single":
-        add("ext:progmod.py", ext["progmod.py"], rng.choice(names))
+        add("ext:progmod.py", rng.choice(names))
     elif mode == "twice":
         a = rng.choice(names)
-        add("ext:progmod.py", ext["progmod.py"], a)
+        add("ext:progmod.py", a)
         if rng.random() < 0.5:
-            add("ext:progmod.py", ext["progmod.py"], rng.choice([n for n in names if n != a]))
-        add("ext:progmod.py", ext["progmod.py"], a)
+            add("ext:progmod.py", rng.choice([n for n in names if n != a]))
+        add("ext:progmod.py", a)
     elif mode == "path+task":
         use_paths = True
-        add("proj:task_m.py", files["task_m.py"], rng.choice(["task_a", "task_c"]))
+        add("proj:task_m.py", rng.choice(["task_a", "task_c"]))
     elif mode == "two-fns":
         for a in rng.sample(names, 2):
-            add("ext:progmod.py", ext["progmod.py"], a)
+            add("ext:progmod.py", a)
     elif mode == "twp":
-        add("ext:progmod.py", ext["progmod.py"], "work", "twp", "t1", 0)
-        add("ext:progmod.py", ext["progmod.py"], "task_a", "twp", "t2", 1)
+        add("ext:progmod.py", "work", "twp", "t1", 0)
+        add("ext:progmod.py", "task_a", "twp", "t2", 1)
     else:
-        add("ext:progmod.py", ext["progmod.py"], "work", "twp", "t1", 0)
-        add("ext:progmod.py", ext["progmod.py"], rng.choice(["work", "task_b"]), "twp", "t1", rng.choice([0, 1]))
+        add("ext:progmod.py", "work", "twp", "t1", 0)
+        add("ext:progmod.py", rng.choice(["work", "task_b"]), "twp", "t1", rng.choice([0, 1]))
+    # markers / @task on the functions that are handed over (only those: an @task function that is not handed over
+    # would be a left-over registration)
+    if mode not in ("twp", "twp-dup"):
+        for n in sorted(set(chosen)):
+            r = rng.random()
+            if r < 0.45:
+                continue
+            o = next(x["obj"] for x in ext_stmts if x["k"] == "def" and x["fname"] == n)
+            marks = [rng.choice(Gen.MARKS)] if rng.random() < 0.9 else ["try_first", "try_last"]
+            i = next(j for j, x in enumerate(ext_stmts) if x["k"] == "def" and x["fname"] == n)
+            if r < 0.7:
+                ext_stmts[i + 1:i + 1] = [{"k": "mark", "obj": o, "marks": marks}]                       # markers only
+            elif r < 0.8:
+                ext_stmts[i + 1:i + 1] = [g.wrap(o, bare=True)]                                          # @task only
+                info[n]["deco"] = True
+                marks = []
+            elif r < 0.9:
+                ext_stmts[i + 1:i + 1] = [{"k": "mark", "obj": o, "marks": marks}, g.wrap(o, bare=True)]  # marker below @task
+                info[n]["deco"] = True
+            else:
+                ext_stmts[i + 1:i + 1] = [g.wrap(o, bare=True), {"k": "mark", "obj": o, "marks": marks}]  # marker above @task
+                info[n]["deco"] = True
+            info[n]["marks"] = marks
+        for pt in ptasks:
+            if pt["src"].startswith("ext:"):
+                pt["marks"] = info[pt["attr"]]["marks"]
+                pt["deco"] = info[pt["attr"]]["deco"]
+    ext = {"progmod.py": {"imports": [], "stmts": ext_stmts}}
     return {"id": cid, "dirs": [], "files": files if use_paths else {}, "paths": [""], "ignore": [], "task_files": None,
             "ext": ext, "ptasks": ptasks}
 
@@ -932,6 +1016,13 @@ def gen_case(rng, cid):
     if rng.random() < 0.4:
         files["c/task_m.py"] = {"imports": [], "stmts": [g.mkdef("task_x", "task_x", style="def")]}
     return {"id": cid, "dirs": sorted({os.path.dirname(f) for f in files}), "files": files, "paths": [""], "ignore": [], "task_files": None}
+
+
+def has_persist(case) -> bool:
+    """A `persist` marker changes which bodies run in the first build (outcome PERSISTENCE) — execution is the engine's
+    business (C17); the executed bodies are then not compared."""
+    return any("persist" in st.get("marks", ()) for pr in list(case["files"].values()) + list((case.get("ext") or {}).values())
+               if pr is not None for st in pr["stmts"] if st["k"] == "mark")
 
 
 def model_applicable(case) -> bool:
@@ -982,6 +1073,12 @@ def witness_cases():
     a, b = g.mkdef("f", None, ["x"], {"x": ["i", 1]}), g.mkdef("f", None, ["x"], {"x": ["s", "1"]})
     out.append({"id": "w-ok-dupid", "dirs": [], "paths": [""], "ignore": [], "task_files": None, "files": {"task_m.py": {"imports": [], "stmts": [
         a, g.wrap(a["obj"]), b, g.wrap(b["obj"])]}}})
+    # former F31 (fix 21cea5f): a function that only carries a marker, handed over through build(tasks=[…]), must be collected
+    d = g.mkdef("work", "work", style="def")
+    out.append({"id": "w-f31", "dirs": [], "paths": [""], "ignore": [], "task_files": None, "files": {},
+                "ext": {"progmod.py": {"imports": [], "stmts": [d, {"k": "mark", "obj": d["obj"], "marks": ["try_first"]}]}},
+                "ptasks": [{"src": "ext:progmod.py", "attr": "work", "fname": "work", "tag": d["tag"], "kind": "fn", "name": None,
+                            "share": None, "marks": ["try_first"], "deco": False}]})
     d = g.mkdef("helped", "helped", style="def")
     out.append({"id": "w-ok-leftover", "dirs": [], "paths": [""], "ignore": [], "task_files": None, "files": {
         "helper_a.py": {"imports": [], "stmts": [d, g.wrap(d["obj"])]},
@@ -1080,7 +1177,7 @@ def compare_model(ctx, case, ob):
             # collection failed: tasks of successful reports are still listed; bodies never run
             ok = same_exit and m["tasks"] == got["tasks"]
         else:
-            ok = same_exit and m["tasks"] == got["tasks"] and (got["exit"] != 0 or m["exec"] == got["exec"])
+            ok = same_exit and m["tasks"] == got["tasks"] and (got["exit"] != 0 or has_persist(case) or m["exec"] == got["exec"])
         if ok:
             ctx.traces_validated += 1
             return
